@@ -215,6 +215,19 @@ type Reply struct {
 	Matched  int64 // bytes covered by block references (by the echoed head)
 	LitRuns  int
 	BlockRef int
+	// Offsets in the (demultiplexed) stream, for fault addressing.
+	OffIdx  int64
+	OffHead int64
+	TokOffs []TokOff
+	OffSum  int64
+	OffEnd  int64
+}
+
+// TokOff locates one token: the 4-byte token word at Off, followed by Lit
+// literal bytes (0 for block references and the end token).
+type TokOff struct {
+	Off int64
+	Lit int
 }
 
 // ReadRequest reads index + sum head + sums. idx == -1 means phase end (no
@@ -287,27 +300,32 @@ func (w *Wire) WriteRequest(idx int32, h SumHead, sums []BlockSum, dryRun bool) 
 // ReadReply reads a sender's answer for one file: index, echoed sum head,
 // tokens, whole-file sum.
 func (w *Wire) ReadReply(maxData int64) (*Reply, error) {
+	off0 := w.BytesIn
 	idx, err := w.GetInt32()
 	if err != nil {
 		return nil, err
 	}
-	rp := &Reply{Idx: idx}
+	rp := &Reply{Idx: idx, OffIdx: off0}
 	if idx == -1 {
 		return rp, nil
 	}
+	rp.OffHead = w.BytesIn
 	if rp.Head, err = w.readSumHead(); err != nil {
 		return nil, err
 	}
 	var total int64
 	for {
+		tokOff := w.BytesIn
 		t, err := w.GetInt32()
 		if err != nil {
 			return nil, fmt.Errorf("token: %w", err)
 		}
 		if t == 0 {
+			rp.TokOffs = append(rp.TokOffs, TokOff{Off: tokOff})
 			break
 		}
 		if t > 0 {
+			rp.TokOffs = append(rp.TokOffs, TokOff{Off: tokOff, Lit: int(t)})
 			b, err := w.GetBytes(int(t))
 			if err != nil {
 				return nil, fmt.Errorf("literal of %d: %w", t, err)
@@ -317,6 +335,7 @@ func (w *Wire) ReadReply(maxData int64) (*Reply, error) {
 			rp.LitRuns++
 			total += int64(t)
 		} else {
+			rp.TokOffs = append(rp.TokOffs, TokOff{Off: tokOff})
 			blk := -(t + 1)
 			rp.Toks = append(rp.Toks, Tok{Block: blk})
 			lo, hi := rp.Head.BlockRange(blk)
@@ -328,11 +347,13 @@ func (w *Wire) ReadReply(maxData int64) (*Reply, error) {
 			return nil, fmt.Errorf("refproto: reply exceeds %d bytes", maxData)
 		}
 	}
+	rp.OffSum = w.BytesIn
 	b, err := w.GetBytes(16)
 	if err != nil {
 		return nil, fmt.Errorf("file sum: %w", err)
 	}
 	copy(rp.FileSum[:], b)
+	rp.OffEnd = w.BytesIn
 	return rp, nil
 }
 
